@@ -14,7 +14,7 @@ theorem variantFieldOffset_single (h : HostLayouts) (hh : h.WF) (t : BTy) (ht : 
     variantFieldOffset h [toMTy t] 0 = some (payloadOffset (rustLayout h t)) := by
   have hl := layout_agrees' h hh t ht
   have hpos := (rustLayout_wf h hh t ht).align_pos
-  have e : (LayoutBuilder.add LayoutBuilder.new enumTagLayout).1 = ⟨1, 1⟩ := tagBuilder_eq
+  have e : (LayoutBuilder.add LayoutBuilder.new locationTagLayout).1 = ⟨1, 1⟩ := by decide
   simp [variantFieldOffset, addFields, hl, e, add_snd _ _ hpos, payloadOffset]
 
 theorem placement_agrees' (h : HostLayouts) (hh : h.WF) (t : BTy) (ht : t.WF) :
